@@ -64,12 +64,12 @@ def attrs(rng, D, nmin=1, nmax=5, flags=True, force_multi=False, first_wordlike=
     n = rng.randrange(nmin, nmax + 1)
     out = []
     used = []
-    escaped = D["fmt"] in ("gff3", "gff2")
+    escaped = D["fmt"] in ("gff3", "gff2", "gff3q")
     for i in range(n):
         k = key(rng, wordlike=(wordlike or (i == 0 and first_wordlike)), used=used)
         used.append(k)
         r = rng.random()
-        if flags and r < 0.08 and not (i == 0 and D["fmt"] == "gff3"):
+        if flags and r < 0.08 and not (i == 0 and D["fmt"] in ("gff3", "gff3q")):
             vals = []
         elif r < 0.30 and k not in single_valued:
             vals = [value(rng, escaped=escaped, **valkw) for _ in range(rng.randrange(2, 4))]
